@@ -251,14 +251,20 @@ class SRC:
                     # The module, which was previously checked, is not found.
                     return
             else:
-                cls = importlib.import_module(calloutParserMod)
+                try:
+                    cls = importlib.import_module(calloutParserMod)
+                except ImportError:
+                    cls = None
                 calloutParsers[calloutParserMod] = cls
+                if cls is None:
+                    return
 
             desc = cls.getMaintProcDesc(procName)
             if desc:
                 out["Description"] = json.loads(desc)
-        except:
-            calloutParsers[calloutParserMod] = None
+        except Exception:
+            # A failure to describe one procedure must not disable the
+            # callout parser for the rest of the run.
             pass
 
     def getCallouts(self, out: OrderedDict, config: Config):
